@@ -126,7 +126,7 @@ def handleMcs (ws : List String) : Option String := do
   let pt := fun (x y z : Nat) => [o[0]! + (x : Rat) * d, o[1]! + (y : Rat) * d, o[2]! + (z : Rat) * d]
   let C := fun (c : List Rat) => contains t (c.getD 0 0) (c.getD 1 0) (c.getD 2 0)
   let lab := fun (x y z : Nat) => C (pt x y z)
-  let one := fun (a b : List Rat) : Option String => do
+  let one : List Rat → List Rat → Option String := fun a b => do
     -- the unrefined vertex is the midpoint `a.Mid(b)`
     let m := (a.zip b).map fun p => (p.1 + p.2) / 2
     let (k, lo, hi) ← Bisect.lookupEdgePoint origin d m
@@ -157,7 +157,7 @@ def handleMss (ws : List String) : Option String := do
   let pt := fun (x y : Nat) => [o[0]! + (x : Rat) * d, o[1]! + (y : Rat) * d]
   let C := fun (c : List Rat) => contains t (c.getD 0 0) (c.getD 1 0) 0
   let lab := fun (x y : Nat) => C (pt x y)
-  let one := fun (a b : List Rat) : Option String => do
+  let one : List Rat → List Rat → Option String := fun a b => do
     let m := (a.zip b).map fun p => (p.1 + p.2) / 2
     if iters == 0 then some (show3 m) else
     let (k, lo, hi) ← Bisect.msLookup mn d m
